@@ -28,9 +28,18 @@ fn fixed_secret(i: u64) -> StaticSecret {
 
 /// One archive with fixed inputs (same files, same recipients every time).
 pub fn build_fixed(layers: u8, recipients: &[PublicKey], files: &[(Vec<u8>, Vec<u8>)]) -> Result<Secrets, String> {
+    build_fixed_calls(layers, recipients, files, 1)
+}
+
+/// The same with the recipients handed to the configuration in `calls` successive
+/// `add_public_keys` calls (one per key file, as a caller loading several files does).
+pub fn build_fixed_calls(layers: u8, recipients: &[PublicKey], files: &[(Vec<u8>, Vec<u8>)], calls: usize) -> Result<Secrets, String> {
     let mut cfg = ArchiveWriterConfig::new();
     cfg.set_layers(layers_of(layers));
-    cfg.add_public_keys(recipients);
+    let per = (recipients.len() + calls.max(1) - 1) / calls.max(1);
+    for part in recipients.chunks(per.max(1)) {
+        cfg.add_public_keys(part);
+    }
     let key = cfg.encryption_key().to_vec();
     let nonce_cfg = cfg.encryption_nonce().to_vec();
     let mut w = ArchiveWriter::from_config(Vec::new(), cfg).map_err(|e| format!("{e:?}"))?;
@@ -197,16 +206,26 @@ pub fn c07_cases(rng: &mut Rng, tier: &str, out: &mut Out) {
     let n3 = if thorough { 200 } else { 30 };
     for k in 0..n3 {
         let layers = if k % 2 == 0 { L_ENC } else { L_ENC | L_COMP };
-        let nrec = rng.range(1, 6);
-        let rec_secrets: Vec<StaticSecret> = (0..nrec).map(|i| fixed_secret(100 + k as u64 * 10 + i)).collect();
+        // mostly small sets; every tenth a large one (the header grows by 48 bytes per recipient)
+        let nrec = if k % 10 == 9 { *rng.pick(&[84u64, 85, 86, 100, 300]) } else { rng.range(1, 6) };
+        let calls = if nrec >= 2 { rng.range(1, 3.min(nrec)) as usize } else { 1 };
+        let rec_secrets: Vec<StaticSecret> = (0..nrec).map(|i| fixed_secret(100 + k as u64 * 1000 + i)).collect();
         let recs: Vec<PublicKey> = rec_secrets.iter().map(PublicKey::from).collect();
         let files = vec![(b"f".to_vec(), rng.bytes(150)), (b"g".to_vec(), vec![1u8; 70])];
         let mut msg: Option<String> = None;
-        let built = build_fixed(layers, &recs, &files);
-        let Ok(s) = built else {
-            continue;
+        let built = build_fixed_calls(layers, &recs, &files, calls);
+        let s = match built {
+            Ok(s) => s,
+            Err(e) => {
+                out.case(&Case {
+                    id: format!("c07-rec-{k}"), model_fn: "", args: vec![], imp: json!([]), oracle_ok: false,
+                    oracle_msg: format!("an archive for {nrec} recipients (given in {calls} calls) cannot be created / its header cannot be parsed: {e}"),
+                    class: format!("recipients layers={layers} n={} calls={calls}", if nrec > 6 { "many".to_string() } else { nrec.to_string() }), nontrivial: true, meta: json!({"layers": layers, "recipients": nrec}),
+                });
+                continue;
+            }
         };
-        let decoy = |i: u64| fixed_secret(5000 + k as u64 * 10 + i);
+        let decoy = |i: u64| fixed_secret(900_000 + k as u64 * 10 + i);
         let read_all = |keys: &[StaticSecret]| -> Result<Vec<(Vec<u8>, Vec<u8>)>, String> {
             let mut cfg = ArchiveReaderConfig::new();
             cfg.add_private_keys(keys);
@@ -226,6 +245,10 @@ pub fn c07_cases(rng: &mut Rng, tier: &str, out: &mut Out) {
         expected.sort();
         // every recipient, at several positions
         for (ri, rs) in rec_secrets.iter().enumerate() {
+            // large sets: first, last, the ones around a call boundary and a few others
+            if nrec > 8 && !(ri == 0 || ri + 1 == nrec as usize || ri % 37 == 0 || ri == (nrec as usize + calls - 1) / calls || ri + 1 == (nrec as usize + calls - 1) / calls) {
+                continue;
+            }
             let before = rng.range(0, 3);
             let after = rng.range(0, 2);
             let mut keys: Vec<StaticSecret> = (0..before).map(decoy).collect();
@@ -257,9 +280,9 @@ pub fn c07_cases(rng: &mut Rng, tier: &str, out: &mut Out) {
             imp: json!([]),
             oracle_ok: msg.is_none(),
             oracle_msg: msg.unwrap_or_default(),
-            class: format!("recipients layers={layers} n={nrec}"),
+            class: format!("recipients layers={layers} n={} calls={calls}", if nrec > 6 { "many".to_string() } else { nrec.to_string() }),
             nontrivial: true,
-            meta: json!({"layers": layers, "recipients": nrec}),
+            meta: json!({"layers": layers, "recipients": nrec, "add_public_keys_calls": calls}),
         });
     }
 }
